@@ -5,6 +5,7 @@ package vfhook
 
 import (
 	"crypto/x509"
+	"net"
 	"net/url"
 )
 
@@ -35,4 +36,6 @@ var (
 	VipValidateUserOTP     func(userID string, OTPValue int) (bool, error)
 	VipStartUserVIPPush    func(userID string) (string, error)
 	VipPushHasBeenApproved func(transactionID string) (bool, error)
+
+	SSHAgentDial func() (net.Conn, error)
 )
